@@ -2,6 +2,8 @@ package gosym
 
 import (
 	"crypto/sha256"
+	"go/constant"
+	"go/types"
 	"encoding/hex"
 	"fmt"
 	"go/token"
@@ -33,6 +35,7 @@ type Program struct {
 	RepoDir    string
 	pkgsRaw    []*packages.Package
 	funcInfo   sync.Map
+	ProtoNames map[string]string
 }
 
 const HaqqMod = "github.com/haqq-network/haqq"
@@ -106,6 +109,7 @@ func Load(repoDir, harnessDir string, pkgPaths []string) (*Program, error) {
 	P.BuildTime = time.Since(tb)
 	P.intrinsics = map[string]Intrinsic{}
 	registerIntrinsics(P)
+	P.scanProtoNames()
 	// overrides declared in harness files
 	for file, src := range ov {
 		for _, m := range overrideRe.FindAllStringSubmatch(string(src), -1) {
@@ -192,4 +196,44 @@ func (P *Program) FuncHash(fn *ssa.Function) string {
 	}
 	h := sha256.Sum256(b[s.Offset:e.Offset])
 	return hex.EncodeToString(h[:6])
+}
+
+// scanProtoNames statically extracts the proto.RegisterType((*T)(nil), "full.Name") calls of generated code, so that
+// proto.MessageName / sdk.MsgTypeURL can be answered without running the registration side effects.
+func (P *Program) scanProtoNames() {
+	P.ProtoNames = map[string]string{}
+	for _, pkg := range P.Prog.AllPackages() {
+		for _, m := range pkg.Members {
+			fn, ok := m.(*ssa.Function)
+			if !ok || !strings.HasPrefix(fn.Name(), "init") {
+				continue
+			}
+			for _, b := range fn.Blocks {
+				for _, ins := range b.Instrs {
+					c, ok := ins.(*ssa.Call)
+					if !ok {
+						continue
+					}
+					callee := c.Call.StaticCallee()
+					if callee == nil || callee.Name() != "RegisterType" || len(c.Call.Args) != 2 {
+						continue
+					}
+					name, ok := c.Call.Args[1].(*ssa.Const)
+					if !ok || name.Value == nil {
+						continue
+					}
+					var t types.Type
+					switch a := c.Call.Args[0].(type) {
+					case *ssa.MakeInterface:
+						t = a.X.Type()
+					case *ssa.ChangeInterface:
+						t = a.X.Type()
+					default:
+						t = a.Type()
+					}
+					P.ProtoNames[t.String()] = constant.StringVal(name.Value)
+				}
+			}
+		}
+	}
 }
